@@ -228,6 +228,7 @@ class Runner:
             shutil.rmtree(root, ignore_errors=True)
             os.makedirs(root)
             for name, text in run["files"].items():
+                os.makedirs(os.path.dirname(os.path.join(root, name)), exist_ok=True)
                 with open(os.path.join(root, name), "w", newline="") as f:
                     f.write(text)
             cmd = ["env", "-i", "PATH=/usr/bin:/bin", "PYTHONHASHSEED=0", "PYTHONDONTWRITEBYTECODE=1", "PYTHONPATH=%s:%s" % (launch.REPO, root),
